@@ -120,6 +120,15 @@ def print_tm(g, opts=None):
     return grammars.print_tm(gg, opts)
 
 
+def nodeconst(name, symid):
+    """The generated NodeType constant; a node type the generated listener lacks (possible only when the tree under test dropped every rule
+    reporting it) becomes a value no event can carry, so that the harness still builds and the missing events show up as a violation."""
+    known = symid.get("#nodetypes")
+    if known is None or name in known:
+        return "int(%s)" % name
+    return "%d" % (-1000 - sum(map(ord, name)))
+
+
 def pgo(e, symid, ntidx):
     k = e[0]
     if k == "t":
@@ -135,7 +144,7 @@ def pgo(e, symid, ntidx):
     if k == "list":
         return "verifList(%s, %s%s)" % (pgo(e[1], symid, ntidx), "true" if e[3] else "false", "".join(", %d" % symid[s] for s in e[2]))
     if k == "arrow":
-        return "verifArrow(int(%s), %s)" % (e[1], pgo(e[2], symid, ntidx))
+        return "verifArrow(%s, %s)" % (nodeconst(e[1], symid), pgo(e[2], symid, ntidx))
     if k == "set":
         return "verifSetOf(%s)" % ", ".join(str(symid[t]) for t in e[1])
     if k == "empty":
@@ -158,6 +167,8 @@ def pgo(e, symid, ntidx):
 def data_file(g, meta, pkgname):
     symid = {name: i for i, name in enumerate(meta["syms"])}
     ntidx = {name: i for i, (name, _) in enumerate(g["nts"])}
+    if meta.get("range_types"):
+        symid["#nodetypes"] = set(meta["range_types"])
     if g.get("uses_sets"):
         from vlib import setref
         vals, named = setref.evaluate(g, meta["syms"][:meta["num_tokens"]])
@@ -172,9 +183,12 @@ def data_file(g, meta, pkgname):
     L.append("var verifBodies []*verifNode")
     L.append("var verifRuleArrow [][]int")
     L.append("func verifSetup() {\n\tif verifBodies != nil {\n\t\treturn\n\t}")
+    if g.get("term_types"):
+        alt = [symid[t] for t, ty in g["term_types"].items() if ty == "verifAltVal"]
+        L.append("\tverifValueOf = func(tok int32, index int) interface{} {\n\t\tif %s {\n\t\t\treturn verifAltVal(index)\n\t\t}\n\t\treturn index\n\t}" % " || ".join("tok == %d" % a for a in alt))
     for name, alts in g["nts"]:
         L.append("\tverifBodies = append(verifBodies, verifAlt(%s))" % ", ".join(rendered[id(e)] for e, _ in alts))
-        L.append("\tverifRuleArrow = append(verifRuleArrow, []int{%s})" % ", ".join(("int(%s)" % a) if a else "0" for _, a in alts))
+        L.append("\tverifRuleArrow = append(verifRuleArrow, []int{%s})" % ", ".join(nodeconst(a, symid) if a else "0" for _, a in alts))
     L.append("}")
     L.append("var verifInputs = []struct {\n\tnt    int\n\tnoeoi bool\n}{%s}" % ", ".join(
         "{%d, %s}" % (ntidx[nt], "true" if noeoi else "false") for nt, noeoi in g["inputs"]))
@@ -348,6 +362,11 @@ EXTACT_RAW += [
     EG("v07", "abc", ["Sx"], [("Sx", [(S(AL("x", "a"), ("marker", "mk"), AL("y", "b"), AL("z", "c"), ACT(1, "x.offset", "y", "y.offset", "y.endoffset", "z", "z.endoffset", "last().offset")), "R")])], typed_terms=True),
     # a mid-rule action after an optional unnamed list: the two expansions need different stack offsets for the same names
     EG("v08", "abcd", ["Sx"], [("Sx", [(S(AL("p", "d"), AL("q", "b"), O(L(T("a"), True)), ACT(1, "q", "q.offset", "p", "p.endoffset"), AL("z", "c"), ACT(2, "z.offset", "q.endoffset", "p.offset")), "R")])], typed_terms=True),
+]
+
+EXTACT_RAW += [
+    # an alias over a nested choice whose alternatives carry differently typed symbols: the value is read with the type of the alternative taken
+    EG("v09", "abnc", ["Sx"], [("Sx", [(S(T("a"), AL("x", A(T("b"), T("n"))), AL("z", "c"), ACT(1, "x", "x.offset", "x.endoffset", "z")), "R")])], typed_terms=True, term_types={"n": "verifAltVal"}),
 ]
 
 EXTACT = [typed(g) for g in EXTACT_RAW]
